@@ -16,6 +16,7 @@ import (
 	"fmt"
 	"os"
 	"path/filepath"
+	"regexp"
 	"sort"
 	"strings"
 	"sync/atomic"
@@ -45,6 +46,12 @@ func trunc(s string, n int) string {
 	return s
 }
 
+// script/transaction locations carry the world id; type ids of declarations made in a script
+// (s.<64 hex>.Name) therefore differ between the three worlds: normalise them.
+var locRe = regexp.MustCompile(`\b([st])\.[0-9a-f]{64}\b`)
+
+func norm(s string) string { return locRe.ReplaceAllString(s, "$1.<loc>") }
+
 func observe(r host.Result) map[string]string {
 	o := map[string]string{"class": r.Class}
 	if r.Value != nil {
@@ -61,6 +68,9 @@ func observe(r host.Result) map[string]string {
 		ws = append(ws, fmt.Sprintf("%x|%x=%x", w.Owner, w.Key, w.Value))
 	}
 	o["writes"] = strings.Join(ws, "\n")
+	for k, v := range o {
+		o[k] = norm(v)
+	}
 	return o
 }
 
